@@ -94,6 +94,9 @@ func (g *gen) operand(steps *[]string, nv *int, dt string, sh []int, layout stri
 }
 
 func vsetFor(op string, dt string, r *rng) int {
+	if op == "minb" || op == "maxb" {
+		return 2 + r.intn(2)
+	}
 	isInt := !(strings.HasPrefix(dt, "f") || strings.HasPrefix(dt, "c"))
 	if (op == "div" || op == "mod") && isInt {
 		return 2 // no zero divisors for integer division (outside the specification's domain)
@@ -164,7 +167,11 @@ func (g *gen) binProgram(op, dt, kind, via string, sh []int, la, lb string, mode
 	case "incr=a":
 		opts = fmt.Sprintf(" incr=$%d", operands[0])
 	}
-	steps = append(steps, fmt.Sprintf("bin %s %s %s %s%s", op, via, A, B, opts))
+	kw := "bin"
+	if op == "minb" || op == "maxb" {
+		kw = "mmb"
+	}
+	steps = append(steps, fmt.Sprintf("%s %s %s %s %s%s", kw, op, via, A, B, opts))
 	res := nv
 	nv++
 	steps = append(steps, fmt.Sprintf("dump $%d", res))
@@ -198,6 +205,20 @@ func genC06(g *gen) {
 			}
 		}
 	}
+	// elementwise minimum / maximum (NaN-free value sets: the kernels' NaN treatment depends on the variant)
+	for _, op := range []string{"minb", "maxb"} {
+		for _, dt := range ordDtypes {
+			for _, kind := range []string{"TT", "TS", "ST"} {
+				for _, via := range []string{"fn", "meth"} {
+					for k := 0; k < n; k++ {
+						g.binProgram(op, dt, kind, via, g.pickShape(), g.r.pick(layouts), g.r.pick(layouts), "safe", "contig")
+					}
+				}
+			}
+		}
+		g.binProgram(op, "c128", "TT", "fn", []int{2, 3}, "contig", "contig", "safe", "contig")
+		g.binProgram(op, "b", "TS", "fn", []int{2, 3}, "contig", "contig", "safe", "contig")
+	}
 	// every layout pair on a fixed set of shapes (layout-blindness)
 	for _, la := range layouts {
 		for _, lb := range layouts {
@@ -230,6 +251,15 @@ func genC07(g *gen) {
 	}
 	modes := []string{"safe", "unsafe", "reuse", "incr", "reuse=a", "reuse=b", "incr=a"}
 	dests := []string{"contig", "sliced", "contig", "lazyT"}
+	for _, op := range []string{"minb", "maxb"} {
+		for _, mode := range []string{"safe", "unsafe", "reuse", "reuse=a", "reuse=b"} {
+			for _, kind := range []string{"TT", "TS", "ST"} {
+				for k := 0; k < n; k++ {
+					g.binProgram(op, g.r.pick(ordDtypes[:12]), kind, g.r.pick([]string{"fn", "meth"}), g.pickShape(), g.r.pick(layouts), g.r.pick(layouts), mode, g.r.pick(dests))
+				}
+			}
+		}
+	}
 	for _, op := range append(append([]string{}, arithOps...), cmpOps...) {
 		isCmp := false
 		for _, c := range cmpOps {
